@@ -79,7 +79,7 @@ int ops_trav(int n, char **a) {
     if (isop(op, "ring") && n == 3) {
         H3Index h = pH(a[1]); int k = (int)pI(a[2]);
         int64_t sz = k == 0 ? 1 : (k > 0 ? 6 * (int64_t)k : 0);
-        H3Index *out = xbuf((size_t)sz, sizeof(H3Index));
+        H3Index *out = sz ? xbuf((size_t)sz, sizeof(H3Index)) : malloc(0);   // k < 0: zero-length buffer
         H3Error e = H3_EXPORT(gridRingUnsafe)(h, k, out);
         if (e) outErr(e); else { printf("ok "); outHs(out, sz); printf("\n"); }
         free(out);
@@ -175,6 +175,7 @@ int ops_trav(int n, char **a) {
     if (isop(op, "path") && n == 3) {
         int64_t sz = 0; H3Error e = H3_EXPORT(gridPathCellsSize)(pH(a[1]), pH(a[2]), &sz);
         if (e) { outErr(e); return 1; }
+        if (sz > 2000000) { printf("skip-too-large\n"); return 1; }
         H3Index *out = xbuf((size_t)sz, sizeof(H3Index));
         e = H3_EXPORT(gridPathCells)(pH(a[1]), pH(a[2]), out);
         if (e) outErr(e);  // slot contents after an error are unspecified; bounds are watched by ASan
